@@ -400,6 +400,8 @@ def make_cases(tier, rnd):
     for mode in MUL_MODES:
         for n in (2, 4, 6):
             cases.append(dict(kind="mul", mode=mode, widths=[n, n], big_endian=bool(n % 4), host="repeat2", alias=True))
+        for n, hk in ((3, "rotated2"), (4, "rotated2"), (4, "reversed2"), (5, "reversed2"), (3, "other-repeats2"), (5, "other-repeats2")):
+            cases.append(dict(kind="mul", mode=mode, widths=[n, n], big_endian=bool((n + len(hk)) % 2), host=hk))
     for mode in MUL_MODES:
         for wd in ([2, 9], [2, 12], [12, 2], [3, 3]) + (([3, 13], [2, 14], [5, 5]) if thorough else ()):
             cases.append(dict(kind="mul", mode=mode, widths=list(wd), big_endian=bool(wd[0] % 2), host="fresh", history="another-circuit-first"))
